@@ -826,6 +826,44 @@ func runSubstCode() {
 			}
 		}
 	})
+	// very long Code 93 symbols (from a foreign encoder; the library's writer stops at 80 characters):
+	// the weights 1..20 and 1..15 cycle hundreds of times - 256 is a multiple of neither period
+	l93 := []int{80, 200, 254, 255, 256, 257, 258, 300, 511, 512, 513, 1025}
+	sweep(fmt.Sprintf("Code 93, very long symbols %v characters from the reference encoder: the valid symbol is read, and substitutions at the first character, at the characters 254..258 places in front of C and of K, at the last data character, at C and at K x three replacement values are never read as a different text", l93), len(l93), 1, func(l *mc.Local, i int) {
+		n := l93[i]
+		t := make([]byte, n)
+		for q := range t {
+			t[q] = "CODE 93-LONG.$/+%Z9X"[(q*7+q/20)%20]
+		}
+		v, err := ref.Code93Values(string(t))
+		if err != nil {
+			panic(err)
+		}
+		cc, kk := ref.Code93Checks(v)
+		v = append(v, cc, kk)
+		c := fcase{Kind: "code93", Vals: v, Text: string(t), Reader: "code93", Scale: 1, Path: "row"}
+		symbolCase(l, nil, &c)
+		l.Distinct("nontrivial", fmt.Sprint("c93-very-long", n))
+		pos := map[int]bool{0: true, n - 1: true, n: true, n + 1: true}
+		for d := 254; d <= 258; d++ {
+			pos[n-d] = true   // d places in front of C
+			pos[n+1-d] = true // d places in front of K
+		}
+		for p := range pos {
+			if p < 0 || p >= len(v) {
+				continue
+			}
+			for _, x := range []int{(v[p] + 1) % 47, (v[p] + 23) % 47, 46 - v[p]} {
+				if x == v[p] {
+					continue
+				}
+				vv := append([]int(nil), v...)
+				vv[p] = x
+				c := fcase{Kind: "code93", Vals: vv, Orig: string(t), Reader: "code93", Scale: 1, Path: "row"}
+				symbolCase(l, nil, &c)
+			}
+		}
+	})
 	// Two-character changes after which ONE of the two check characters verifies and the other does
 	// not: (1) a wrong C with K computed over the data followed by that wrong C; (2) a data character
 	// replaced, C left as it was, K fitted; (3) a data character replaced, C recomputed, K left.
